@@ -307,12 +307,40 @@ def __getattr__(name):
             _SPY_CACHE[name] = _make_xinc_forecaster()
             globals()[name] = _SPY_CACHE[name]
         return _SPY_CACHE[name]
+    if name == "FailingNaive":
+        if name not in _SPY_CACHE:
+            _SPY_CACHE[name] = _make_failing_naive()
+            globals()[name] = _SPY_CACHE[name]
+        return _SPY_CACHE[name]
     if name == "SpyTransformer":
         if name not in _SPY_CACHE:
             _SPY_CACHE[name] = _make_spy_transformer()
             globals()[name] = _SPY_CACHE[name]
         return _SPY_CACHE[name]
     raise AttributeError(name)
+
+
+def _make_failing_naive():
+    from sktime.forecasting.naive import NaiveForecaster
+
+    class FailingNaive(NaiveForecaster):
+        """A real NaiveForecaster whose fit raises when the training series has exactly
+        `fail_len` points (fault injection by data: e.g. only the refit on the whole series
+        fails, never a fit on a fold)."""
+
+        def __init__(self, strategy="last", window_length=None, sp=1, fail_len=None):
+            self.fail_len = fail_len
+            super(FailingNaive, self).__init__(strategy=strategy, window_length=window_length, sp=sp)
+
+        def fit(self, y, X=None, fh=None):
+            if self.fail_len is not None and len(y) == self.fail_len:
+                self._is_fitted = False
+                raise InjectedFault("injected: fit on %d points fails" % len(y))
+            return super(FailingNaive, self).fit(y, X=X, fh=fh)
+
+    FailingNaive.__module__ = "simkit.peers"
+    FailingNaive.__qualname__ = "FailingNaive"
+    return FailingNaive
 
 
 def _make_spy_transformer():
